@@ -87,6 +87,27 @@ add("C09", "model-based operation sequences: (a) HashTable operations against a 
     "HashTable: generated sequences of add/get/setHashSensitivity/enableCaching/clear around a base point with perturbations from 1e-9 to 437 K: nothing is returned while disabled, every returned value was stored for a point within one unit of the configured decimal place, exact repeats hit. Thermodynamic queries: generated sequences of driving-force, interfacial-composition / growth+interfacial-composition, interdiffusivity and tracer-diffusivity queries (scalar/array, removeCache on/off, temperature jumps, repeats, cache clears) on Al-Zr, Al-Mg-Si (five phases) and Ni-Cr-Al: each answer and each array element equals the answer of a cache-free object up to the documented 1 J/mol offset, repeats agree, arguments stay bit-identical.",
     "offset-equivalence tolerance; on the order/disorder gamma prime system driving-force queries with retained cache are the region of open finding KF-C09-4 (explored by its own clause, matched by predicate)")
 
+# clauses added after the first build (seeded changes and the mutant campaign, DESIGN.md section 8)
+EXTRA = {
+    "C04": "Scenarios also leave closed boundaries to the model's defaults and build an earlier model of the same process with other boundary conditions first (no state may leak between models).",
+    "C05": "Exceptions raised from inside kawin while running a generated (legal) program are violations. Thorough tier: the same clause additionally driven by atheris/libFuzzer through Hypothesis' fuzz_one_input with coverage feedback from the solver modules.",
+    "C06": "The order is measured through solve() with durations that are not a multiple of the step (short last step) and generated minimum step fractions; a third halving decides cases in which both estimates are low.",
+    "C07": "Clause after_history: the same identities and the step limit on a model whose grid went through a generated history of extension, re-mesh, automatic adjustment and restoring recorded states. Thorough tier adds the atheris-driven campaign on the transport clauses.",
+    "C08": "Thorough tier adds the atheris-driven campaign on the history clause.",
+    "C09": "Clause model_cache: cache settings made on a diffusion model (useCache, setHashSensitivity) followed through clearCache and reset+setup, observed at the logging stub backend (with caching off every node reaches the backend; a node served from the cache has an earlier evaluation within one unit of the configured precision).",
+    "C10": "Two of the ten fields list the elements in an order that is a cyclic rotation of the alphabetical one.",
+    "C12": "Clause model_rcrit_ramp: the growth-sign invariant on temperature ramps, judged against the range of critical radii within maxTempChange of the current temperature; the constant-temperature clause also changes an interfacial/grain-boundary energy, resets and re-runs the same model.",
+    "C13": "The entry clause also sets the final schedule after 1-2 other schedules had been set on the same model; the diffusion clause covers the single-phase and the homogenization model.",
+    "C14": "The incubation factor is judged against the documented product Z beta exp(-G*/kT).",
+    "C15": "Clause setter_history: one ShapeFactor object driven through 2-6 shape / aspect-ratio settings mixing constant and radius-dependent aspect ratios, compared after every setting with the description at the aspect ratio set last.",
+    "C17": "With a shared table the same point is re-evaluated under another post-processing mode and read back through computeMobility (cached data must stay unprocessed).",
+    "C18": "Grain-growth runs also start from data-loaded distributions and after an earlier run followed by reset(); volume is judged against the volume the run starts from.",
+    "C20": "Clause surrogate_multi: MulticomponentSurrogate over an analytic ternary backend (driving force, diffusivity, curvature factors; growth and impingement derived from them); both surrogate clauses train on broadcast grids and point-wise lists, the binary one also on temperature x Gibbs-Thomson grids.",
+}
+NOTE_OVERRIDE = {
+    "C20": "toy/stub backends (the file format and the surrogate plumbing do not depend on the database); training sets are generated non-degenerate (distinct, non-collinear points)",
+}
+
 NOT_YET = {}
 
 ALL = ["C%02d" % i for i in range(1, 21)]
@@ -105,8 +126,8 @@ def build():
             "evidence_file": "/verif/evidence/%s.json" % pid,
             "replay_cmd_template": "sh ./check %s quick --replay {path}" % pid,
             "engine": "vk-hypothesis",
-            "level_claimed": {"category": c["level"], "text": c["text"], "design_ref": c["ref"]},
-            "level_note": c["note"],
+            "level_claimed": {"category": c["level"], "text": c["text"] + ((" " + EXTRA[pid]) if pid in EXTRA else ""), "design_ref": c["ref"]},
+            "level_note": NOTE_OVERRIDE.get(pid, c["note"]),
             "technique": c["technique"],
         })
     na = [{"property_id": p, "reason": NOT_YET.get(p, "check not built yet in this session (planned, see DESIGN.md section 5); property-based testing is applicable")}
